@@ -115,6 +115,26 @@ def stream_cipher(ctx, res, nkeys):
                         res.violate(None, "XOR is not data[i] ^ key[i mod 32]", dict(case, ct=sv1.ciphertext.hex()))
                     reqs.append({"cmd": "xor", "key": key.hex(), "data": pt.hex()})
                     pend.append(("enc", case, sv1.ciphertext.hex()))
+        # provider objects used for more than one value: every call stands on its own (no state carried from one value to the next),
+        # on the same object, on a second object with the same key, in any order
+        from cincoconfig.encryption import XorProvider, AesProvider
+        for cls, name in ((XorProvider, "xor"), (AesProvider, "aes")):
+            values = [bytes(rng.getrandbits(8) for _ in range(ln)) for ln in (5, 0, 33, 7, 64, 1, 31, 32, 17)] + [b"text", "t\u00e9xt".encode()]
+            case = {"stream": "provider-reuse", "provider": name, "key": key.hex(), "lengths": [len(v) for v in values]}
+            res.case(("provider-reuse", name, ki), kind="provider-reuse:" + name)
+            try:
+                one, two = cls(key), cls(key)
+                cts = [one.encrypt(v) for v in values]
+                backs_same = [one.decrypt(c) for c in reversed(cts)][::-1]
+                backs_other = [two.decrypt(c) for c in cts]
+                again = [two.encrypt(v) for v in values]
+                if backs_same != values or backs_other != values:
+                    res.violate("C08:provider-reuse", "a provider object used for several values does not decrypt what it (or another object with the same key) encrypted",
+                                dict(case, wrong_same=[i for i, (a, b) in enumerate(zip(backs_same, values)) if a != b], wrong_other=[i for i, (a, b) in enumerate(zip(backs_other, values)) if a != b]))
+                if name == "xor" and (cts != [bytes(b ^ key[i % 32] for i, b in enumerate(v)) for v in values] or again != cts):
+                    res.violate("C08:provider-reuse", "XOR of a provider object used for several values is not data[i] ^ key[i mod 32] for each value", case)
+            except Exception as e:  # noqa
+                res.violate("C08:provider-reuse", "a provider object used for several values raised %s" % type(e).__name__, dict(case, error=str(e)[:120]))
         # malformed ciphertexts / methods
         with KeyFile(kp) as kf:
             good = kf.encrypt(b"0123456789abcdefXYZ", "aes").ciphertext
